@@ -62,8 +62,9 @@ TIERS = {
         # the full forced state space (every complete behaviour printed at the horizon) + transition cover
         # for RetryCount up to 3
         gen=[dict(emit="end", view=False, maxops=3, rcs=(0, 1, 2), rds=(1, 2, 3), tos=(0, 1, 3)),
-             dict(emit="all", view=True, maxops=3, rcs=(3,), rds=(1, 2, 3), tos=(0,), kinds=("retry",))],
-        max_plain=10 ** 9, max_racing=40000, racing_reps=10, judge_jvms=12, stress_ms=20000, devs=True, timeout=1000),
+             dict(emit="all", view=True, maxops=2, rcs=(3,), rds=(1, 2, 3), tos=(0,), kinds=("retry",))],
+        # (all plain behaviours up to 70000, beyond that a VERIF_SEED sample - the evidence says which)
+        max_plain=70000, max_racing=6000, racing_reps=6, judge_jvms=12, stress_ms=20000, devs=True, timeout=1000),
 }
 
 DEV_CFGS = {  # deviation -> (cfg constants, property that must be violated on the model)
@@ -186,6 +187,7 @@ def build_schedules(raw, tier):
 # ---------------------------------------------------------------- execution on the real code
 
 PANIC_RE = re.compile(r"panic: |fatal error: |SIGSEGV")
+TR_RE = re.compile(r'\{"tr":"([^"]+)"')
 
 
 def classify_crash(out):
@@ -199,14 +201,14 @@ def classify_crash(out):
 
 
 def execute(binary, scheds, nchunks):
-    """Run the schedules in parallel driver processes. Returns (trace lines per chunk, crashes)."""
+    """Run the schedules in parallel driver processes. Returns (NDJSON text per chunk, crashes)."""
     sc = vlib.scratch()
     chunks = vlib.chunks(scheds, nchunks)
 
     def one(ix):
         i, chunk = ix
         sp, tp, pp = [os.path.join(sc, "tx-%s-%d" % (k, i)) for k in ("sched", "trace", "prog")]
-        todo, lines, crashes = list(chunk), [], []
+        todo, lines, crashes = list(chunk), [], []       # lines: raw NDJSON lines (kept as text: millions in thorough)
         for attempt in range(4):
             if not todo:
                 break
@@ -216,7 +218,7 @@ def execute(binary, scheds, nchunks):
                     os.remove(f)
             rc, out = vlib.run_driver(binary, {"VERIF_SCHED": sp, "VERIF_TRACE": tp, "VERIF_PROGRESS": pp},
                                       timeout=600)
-            got = [json.loads(l) for l in open(tp)] if os.path.exists(tp) else []
+            got = open(tp).read().splitlines(True) if os.path.exists(tp) else []
             prog = open(pp).read() if os.path.exists(pp) else ""
             if rc == 0 and prog == "DONE":
                 lines += got
@@ -228,31 +230,31 @@ def execute(binary, scheds, nchunks):
             if sig is None or prog not in ids:
                 raise vlib.Inconclusive("txdrv died for a harness reason (rc=%d, at %r):\n%s" % (rc, prog, out[-3000:]))
             k = ids.index(prog)
-            lines += [l for l in got if l["tr"] != prog]
+            lines += [l for l in got if not l.startswith('{"tr":"%s"' % prog)]
             crashes.append(dict(sig=sig, sched=todo[k], out=out[-2500:]))
             todo = todo[k + 1:]
         else:
             if todo:
                 raise vlib.Inconclusive("txdrv kept dying (chunk %d)" % i)
-        return lines, crashes
+        return "".join(lines), crashes
 
     res = vlib.pmap(one, list(enumerate(chunks)), n=nchunks)
     return [r[0] for r in res], [c for r in res for c in r[1]]
 
 
 def judge(chunks_lines):
-    """One TLC run (Trace_Transactions) per chunk. Returns (bad records, stats, tlc states, tlc transitions)."""
-    def one(lines):
-        if not lines:
+    """One TLC run (Trace_Transactions) per NDJSON text. Returns (bad records, stats, tlc states, tlc transitions)."""
+    def one(text):
+        if not text:
             return [], dict(traces=0, t18=0, t19=0, chk18=0, chk19=0, bad18=0, bad19=0), 0, 0
-        text = "".join(json.dumps(l) + "\n" for l in lines)
+        nlines = text.count("\n")
         res = vlib.tlc("Trace_Transactions", "Trace_Transactions.cfg", files={"tx_trace.ndjson": text},
                        workers=1, timeout=900, javaopts="-Xmx3g")
         if not vlib.tlc_ok(res):
             raise vlib.Inconclusive("trace validation did not complete:\n" + res["out"][-2000:])
         consumed = vlib.tlc_printed(res, "CONSUMED:")
-        if not consumed or int(consumed[-1]) != len(lines):
-            raise vlib.Inconclusive("trace validation consumed %s of %d lines" % (consumed, len(lines)))
+        if not consumed or int(consumed[-1]) != nlines:
+            raise vlib.Inconclusive("trace validation consumed %s of %d lines" % (consumed, nlines))
         bad = json.loads(vlib.tlc_printed(res, "BAD:")[-1])
         st = json.loads(vlib.tlc_printed(res, "STATS:")[-1])
         return bad, st, res["distinct"], res["generated"]
@@ -264,11 +266,12 @@ def judge(chunks_lines):
 
 
 def plant_corrupted(groups):
-    """Append corrupted copies of accepted-looking traces to the first group; returns their ids."""
+    """Prepend corrupted copies of accepted-looking traces to the first group; returns their ids."""
     by_tr = {}
-    for g in groups:
-        for l in g:
-            by_tr.setdefault(l["tr"], []).append(l)
+    for raw in groups[0].splitlines()[:30000]:
+        l = json.loads(raw)
+        by_tr.setdefault(l["tr"], []).append(l)
+    by_tr = {k: v for k, v in by_tr.items() if v[0]["ev"] == "new" and v[-1]["ev"] == "end"}
     planted = set()
     # C18: finally count bumped on the lines after Done closed
     for tr, ls in by_tr.items():
@@ -277,7 +280,8 @@ def plant_corrupted(groups):
             k = next(i for i, l in enumerate(cp) if l["done"])
             for l in cp[min(k + 1, len(cp) - 2):]:
                 l["fin"] = 2
-            groups[0][0:0] = cp          # first: the judge keeps at most MaxBad violations per run
+            # first: the judge keeps at most MaxBad violations per run
+            groups[0] = "".join(json.dumps(l) + "\n" for l in cp) + groups[0]
             planted.add("selftest-c18")
             break
     # C19: the first retry callback reported one tick late
@@ -290,7 +294,8 @@ def plant_corrupted(groups):
             cp[k]["cb"], cp[k]["parked"] = 0, False           # ... not at its tick
             del cp[k + 1]                                       # (its release line)
             cp[k + 1]["cb"] = max(cp[k + 1]["cb"], 1)           # ... but one tick later
-            groups[0][0:0] = cp          # first: the judge keeps at most MaxBad violations per run
+            # first: the judge keeps at most MaxBad violations per run
+            groups[0] = "".join(json.dumps(l) + "\n" for l in cp) + groups[0]
             planted.add("selftest-c19")
             break
     return planted
@@ -405,7 +410,8 @@ def run(prop, tier, replay=None):
     t1 = lap("replay", t1)
     # few, large TLC runs for the judging (JVM start dominates small ones)
     nj = max(1, min(TIERS[tier]["judge_jvms"], len(chunks_lines)))
-    groups = [[l for c in chunks_lines[k::nj] for l in c] for k in range(nj)]
+    groups = ["".join(chunks_lines[k::nj]) for k in range(nj)]
+    nlines = sum(c.count("\n") for c in chunks_lines)
     # binding self-test: a recorded trace with one corrupted field must be rejected by the trace spec
     planted = plant_corrupted(groups)
     bad, tstats, tstates, ttrans = judge(groups)
@@ -414,14 +420,19 @@ def run(prop, tier, replay=None):
         raise vlib.Inconclusive("binding self-test: corrupted trace(s) %s were accepted by Trace_Transactions"
                                 % sorted(planted - caught))
     bad = [b for b in bad if not b["tr"].startswith("selftest-")]
-    for g in groups:
-        g[:] = [l for l in g if not l["tr"].startswith("selftest-")]
+    del groups
     tstats["traces"] -= len(planted)
     t1 = lap("tlc_traces", t1)
-    lines_by_tr = {}
-    for ls in chunks_lines:
-        for l in ls:
-            lines_by_tr.setdefault(l["tr"], []).append(l)
+
+    def traces_of(ids):
+        """recorded lines of the given schedules (parsed on demand)."""
+        want, got = set(ids), {}
+        for text in chunks_lines:
+            for raw in text.splitlines():
+                m = TR_RE.match(raw)
+                if m and m.group(1) in want:
+                    got.setdefault(m.group(1), []).append(json.loads(raw))
+        return got
 
     violations = []
     for b in bad:
@@ -429,8 +440,7 @@ def run(prop, tier, replay=None):
             continue
         violations.append(dict(sig=b["sig"], what="%s [schedule %s, line %d, event %s at tick %d]"
                                                   % (explain(b["sig"]), b["tr"], b["line"], b["ev"], b["now"]),
-                               replay=dict(sched=by_id[b["tr"]], failing_line=b["line"], signature=b["sig"],
-                                           trace=lines_by_tr.get(b["tr"], []))))
+                               replay=dict(sched=by_id[b["tr"]], failing_line=b["line"], signature=b["sig"])))
     info = {}
     if prop == "C18":
         for c in crashes:
@@ -443,18 +453,26 @@ def run(prop, tier, replay=None):
     # shortest schedule first for every signature (stable, minimal replay files)
     violations.sort(key=lambda v: (v["sig"], len(json.dumps(v["replay"].get("sched", {}).get("ev", []))),
                                    json.dumps(v["replay"].get("sched", {}), sort_keys=True)))
+    # attach the recorded trace to the representative (first) violation of every signature
+    first = {}
+    for v in violations:
+        first.setdefault(v["sig"], v)
+    rep_ids = [v["replay"]["sched"]["id"] for v in first.values() if "failing_line" in v["replay"]]
+    sample_ids = [s["id"] for s in scheds[:1]] + [s["id"] for s in scheds if is_racing(s)][:1] + rep_ids[:1]
+    lines_by_tr = traces_of(rep_ids + sample_ids)
+    for v in first.values():
+        if "failing_line" in v["replay"]:
+            v["replay"]["trace"] = lines_by_tr.get(v["replay"]["sched"]["id"], [])
     rc, n_new, n_known = vlib.verdict(prop, violations)
 
     ntr = tstats["traces"]
     nontrivial = tstats["t18"] if prop == "C18" else tstats["t19"]
-    sample_ids = [s["id"] for s in scheds[:1]] + [s["id"] for s in scheds if is_racing(s)][:1] + \
-                 [v["replay"]["sched"]["id"] for v in violations if "sched" in v["replay"]][:1]
     samples = [dict(schedule=by_id[i], trace=[{k: l[k] for k in ("ev", "cberr", "now", "done", "err", "fin", "cb", "cbad", "parked", "pret")}
                                              for l in lines_by_tr.get(i, [])]) for i in dict.fromkeys(sample_ids)]
     cov = dict(
         states=max(1, mstats["states"] + tstates), transitions=max(1, mstats["transitions"] + ttrans),
         model_states=mstats["states"], model_transitions=mstats["transitions"], tlc_runs=mstats["runs"],
-        traces_validated_against_impl=ntr, trace_lines_judged=sum(len(c) for c in chunks_lines),
+        traces_validated_against_impl=ntr, trace_lines_judged=nlines,
         evaluations=ntr, distinct_nontrivial=nontrivial,
         rule="schedules = event sequences (S, F, P, C, tick, rel[err], tS/tF/tP) printed by TLC from the forced-mode "
              "state space of Transactions.tla (%s), each replayed on the real types under the virtual clock with a "
